@@ -179,21 +179,23 @@ func (a *AggregatePlan) prepare(ctx *ExecuteCtx) error {
 		if k == nil && v == nil && err == nil {
 			break
 		}
-		aggrKey, err := a.getAggrKey(k, v, ctx)
+		// Per-row evaluation must not go through the per-row field cache of
+		// ctx: nothing clears it between the rows of this loop.
+		aggrKey, err := a.getAggrKey(k, v, nil)
 		if err != nil {
 			return err
 		}
 		kvp := NewKVP(k, v)
 		row, have := a.aggrMap[aggrKey]
 		if !have {
-			row, err = a.createAggrRow(kvp, ctx)
+			row, err = a.createAggrRow(kvp, nil)
 			if err != nil {
 				return err
 			}
 			a.aggrMap[aggrKey] = row
 			a.aggrRows = append(a.aggrRows, row)
 		}
-		err = a.updateRowAggrFunc(row, kvp, ctx)
+		err = a.updateRowAggrFunc(row, kvp, nil)
 		if err != nil {
 			return err
 		}
@@ -219,14 +221,14 @@ func (a *AggregatePlan) prepareBatch(ctx *ExecuteCtx) error {
 		for i, aggrKey := range aggrKeys {
 			row, have := a.aggrMap[aggrKey]
 			if !have {
-				row, err = a.createAggrRow(kvps[i], ctx)
+				row, err = a.createAggrRow(kvps[i], nil)
 				if err != nil {
 					return err
 				}
 				a.aggrMap[aggrKey] = row
 				a.aggrRows = append(a.aggrRows, row)
 			}
-			err = a.updateRowAggrFunc(row, kvps[i], ctx)
+			err = a.updateRowAggrFunc(row, kvps[i], nil)
 			if err != nil {
 				return err
 			}
